@@ -35,6 +35,11 @@ Add(h) == \E x \in Names \ Model(st, h).nodes, k \in Kinds : \E ps \in ParentSeq
   /\ st' = DoAdd(st, h, x, k, n + 1, ps, {ps[i] : i \in 1..Len(ps)} \cap Privs, k = "prior")
   /\ Rec("add", h, h, x, "")
 UserNodes(h) == Model(st, h).nodes \ Model(st, h).priv
+\* a keyword parent added after construction (model.add_edge); keeps the graph simple and acyclic
+AddEdge(h) == \E x, p \in UserNodes(h) :
+  /\ x # p /\ p \notin Parents(Model(st, h).edges, x) /\ p \notin Descendants(Model(st, h).edges, x)
+  /\ ~\E e \in Model(st, h).edges : e[2] = x /\ e[3] = -1
+  /\ st' = DoAddEdge(st, h, p, x, -1) /\ Rec("addedge", h, h, x, p)
 Become(h) == \E x, y \in UserNodes(h) :
   /\ x # y
   /\ FreshOnly => (Children(Model(st, h).edges, y) = {} /\ y \notin Descendants(Model(st, h).edges, x))
@@ -49,7 +54,7 @@ Copy(h) == \E i \in 1..Len(Handles) :
      \/ st' = DoSaveLoad(st, h, Handles[i]) /\ Rec("saveload", h, Handles[i], "", "")
 
 Next == /\ n < MaxEdits /\ n' = n + 1
-        /\ \E h \in Live : Add(h) \/ Become(h) \/ Remove(h) \/ SetParams(h) \/ SetObs(h) \/ Copy(h)
+        /\ \E h \in Live : Add(h) \/ AddEdge(h) \/ Become(h) \/ Remove(h) \/ SetParams(h) \/ SetObs(h) \/ Copy(h)
 Spec == Init /\ [][Next]_vars
 
 \* ---- properties (C14) ---------------------------------------------------------
